@@ -3,7 +3,7 @@
 import json, os, subprocess, sys
 VERIF = os.path.dirname(os.path.dirname(os.path.abspath(__file__)))
 EXTRA = {"C02": ["C06", "C05", "C16"], "C04": ["C07"], "C05": ["C16"], "C07": ["C04", "C09", "C05", "C03", "C16"], "C08": ["C09", "C16", "C14"],
-         "C10": ["C11", "C01"], "C01": ["C10", "C11", "C09"], "C11": ["C10"], "C12": ["C15"], "C13": ["C14"], "C14": ["C13"],
+         "C10": ["C11", "C01"], "C01": ["C10", "C11", "C09"], "C11": ["C10"], "C12": ["C15"], "C13": ["C14"], "C14": ["C13", "C05", "C09"],
          "C15": ["C12"], "C16": ["C05"], "C17": ["C10", "C07", "C03"], "C19": ["C18"], "C03": ["C09", "C07"], "C06": ["C10", "C11"], "C20": ["C16"],
          "C09": ["C05", "C07"], "C18": ["C05"]}
 rows = []
